@@ -74,7 +74,8 @@ func (r *BufferReader) ReadWire(l int) (Wire, error) {
 	if r.pos >= len(r.buf) && l > 0 {
 		return nil, io.EOF
 	}
-	if r.pos+l > len(r.buf) {
+	// l may come from a 64-bit length on the wire: negative after conversion, or large enough to overflow pos+l
+	if l < 0 || l > len(r.buf)-r.pos {
 		return nil, io.ErrUnexpectedEOF
 	}
 	p := r.pos
@@ -83,7 +84,7 @@ func (r *BufferReader) ReadWire(l int) (Wire, error) {
 }
 
 func (r *BufferReader) ReadBuf(l int) (Buffer, error) {
-	if r.pos+l > len(r.buf) {
+	if l < 0 || l > len(r.buf)-r.pos {
 		return nil, io.ErrUnexpectedEOF
 	}
 	p := r.pos
@@ -107,7 +108,7 @@ func (r *BufferReader) Range(start, end int) Wire {
 }
 
 func (r *BufferReader) Delegate(l int) ParseReader {
-	if l < 0 || r.pos+l > len(r.buf) {
+	if l < 0 || l > len(r.buf)-r.pos {
 		return NewBufferReader([]byte{})
 	}
 	subBuf := r.buf[r.pos : r.pos+l]
@@ -176,6 +177,9 @@ func (r *WireReader) ReadWire(l int) (Wire, error) {
 	if !r.nextSeg() && l > 0 {
 		return nil, io.EOF
 	}
+	if l < 0 || l > r.Length()-r.Pos() {
+		return nil, io.ErrUnexpectedEOF
+	}
 	ret := make(Wire, 0, len(r.wire)-r.seg)
 	for l > 0 {
 		if r.seg >= len(r.wire) {
@@ -202,6 +206,10 @@ func (r *WireReader) ReadBuf(l int) (Buffer, error) {
 		}
 		// A zero-length read at the very end of the wire is valid (e.g. an empty last name component)
 		return Buffer{}, nil
+	}
+	// l may come from a 64-bit length on the wire: never allocate or advance beyond what the wire holds
+	if l < 0 || l > r.Length()-r.Pos() {
+		return nil, io.ErrUnexpectedEOF
 	}
 	if r.pos+l <= len(r.wire[r.seg]) {
 		p := r.pos
@@ -271,6 +279,12 @@ func (r *WireReader) Skip(n int) error {
 	if n < 0 {
 		return errors.New("encoding.WireReader.Skip: backword skipping is not allowed")
 	}
+	if n > r.Length()-r.Pos() {
+		return io.EOF
+	}
+	if r.seg >= len(r.wire) {
+		return nil
+	}
 	r.pos += n
 	for r.pos > len(r.wire[r.seg]) {
 		r.pos -= len(r.wire[r.seg])
@@ -283,7 +297,7 @@ func (r *WireReader) Skip(n int) error {
 }
 
 func (r *WireReader) Delegate(l int) ParseReader {
-	if l < 0 || r.seg >= len(r.wire) {
+	if l < 0 || r.seg >= len(r.wire) || l > r.Length()-r.Pos() {
 		return NewBufferReader([]byte{})
 	}
 	if r.pos+l <= len(r.wire[r.seg]) {
